@@ -246,7 +246,8 @@ LEVEL_TEXT = (
     "Exploration of the round trip permeances -> real flux solver -> real DiffusionCurve -> reported permeances in every "
     "permeate mode (64 ulp in vacuum / p=0, precision x measured sensitivity in temperature mode, exact in pressure mode "
     "unless the two-formula signature of the known finding matches), and of curves built from permeances in all three "
-    "units (units, values, fluxes, re-inversion). Held means no unexplained mismatch on this run's executions."
+    "units (units, values, fluxes, re-inversion); a quarter of the built-in-mixture cases also goes through the table route (the curve and a "
+    "vacuum curve of the same points in one hand-made csv with blank cells, loaded with DiffusionCurveSet.load). Held means no unexplained mismatch on this run's executions."
 )
 LEVEL_NOTE = "Trusted: the library's get_partial_pressures (C04); the tap on the solver's inner evaluations for y*."
 TECHNIQUE = "runtime monitoring: round-trip oracle over recorded solver and curve-construction executions, two-formula signature classifier for the known finding"
